@@ -678,6 +678,7 @@ def gen_chain(rng, maxlen=4, doc=None):
     ops = [['select', gen_path_for(rng, doc) if doc else gen_path(rng)]]
     attr_seen = has_attr(ops[0][1])
     written = []
+    read_live = set()
     for _ in range(n):
         for _try in range(20):
             op = gen_op(rng, 2, doc)
@@ -690,7 +691,17 @@ def gen_chain(rng, maxlen=4, doc=None):
             op = ['remove']
         if op[0] in INJECT and written and rng.random() < 0.35:
             op = [op[0], ['buf', rng.choice(written)]]
+        if op[0] == 'buffer':
+            read_live = set()
+        if op[0] in INJECT and op[1][0] == 'buf':
+            read_live.add(op[1][1])
         if op[0] in ('copy', 'cut'):
+            if op[1] in read_live:
+                # a buffer may not be written downstream of an injector that is still reading it
+                # (no buffer() barrier in between): the injected list would grow under its own
+                # iteration and the chain need not terminate — aliasing misuse, not generated
+                free = [i for i in (0, 1, 2) if i not in read_live]
+                op = [op[0], free[0], op[2]]
             written.append(op[1])
         ops.append(op)
     return ops
@@ -830,8 +841,9 @@ def sanitizer_doc(rng):
     def fix(nodes, inside_c):
         for n in nodes:
             if n[0] == 'e':
+                n[1] = ['', n[1][1]]                  # namespaced elements are unsafe as well
                 if n[1][1] == 'c' and inside_c:
-                    n[1] = [n[1][0], 'b']
+                    n[1] = ['', 'b']
                 fix(n[3], inside_c or n[1][1] == 'c')
     fix(doc, False)
     return doc
